@@ -657,7 +657,7 @@ func TestC07(t *testing.T) {
 	runWitnesses(t, "C07")
 	pairs := 0
 	seenPairs := map[string]bool{}
-	rapidCheck(t, "C07/convert", tier(1200, 100000), func(rt *rapid.T) {
+	rapidCheck(t, "C07/convert", tier(1200, 600000), func(rt *rapid.T) {
 		c := c07Case{Src: rapid.SampledFrom(c07Sources).Draw(rt, "src"), Dst: rapid.SampledFrom(c07Dests).Draw(rt, "dst")}
 		c.SrcExt, c.DstExt = randomCase(rt, c.Src), randomCase(rt, c.Dst)
 		c.Doc, c.Page = genC07Doc(rt, c.Src)
